@@ -1126,3 +1126,16 @@ benign('benign-c06-tick-len-test', 'C06', 'crates/edp_client/src/connection.rs',
 benign('benign-c15-integer-try-from', 'C15', ENCF, "    } else if value >= i32::MIN as i64 && value <= i32::MAX as i64 {\n        buf.put_u8(INTEGER_EXT);\n        buf.put_i32(value as i32);",
        "    } else if let Ok(small) = i32::try_from(value) {\n        buf.put_u8(INTEGER_EXT);\n        buf.put_i32(small);")
 canary('c20-range-bounds-small-only', 'C20', 'crates/edp_elixir_terms/src/range.rs', "        let first = i64_bound(map.get(&first_key)?)?;", "        let first = map.get(&first_key)?.as_integer()?;", 'wide-field-as_integer')
+canary('c02-context-key-truncate', 'C02', 'crates/erltf/src/errors.rs', "    pub fn push(&mut self, segment: PathSegment) {\n", """    pub fn push(&mut self, mut segment: PathSegment) {
+        if let PathSegment::MapValue(key) = &mut segment {
+            if key.len() > 64 {
+                key.truncate(64);
+            }
+        }
+""", 'truncate')
+canary('c02-bigint-strip-zeros-unbounded', 'C02', 'crates/erltf/src/term.rs', "fn compare_int_bigint(i: i64, big: &BigInt) -> Ordering {\n", """fn compare_int_bigint(i: i64, big: &BigInt) -> Ordering {
+    let mut sig = big.digits.len();
+    while sig > 0 && big.digits[sig - 1] == 0 && big.digits[sig] == 0 {
+        sig -= 1;
+    }
+""", 'PANIC:erltf::term::compare_int_bigint')
